@@ -9,7 +9,7 @@ THEOREMS = ["Frost.C10.refreshShare_ok", "Frost.C10.refreshShare_rejects_thresho
             "Frost.C10.refreshShare_rejects_nonzero_constant", "Frost.C10.computeRefreshingShares_unknown",
             "Frost.C10.computeRefreshingShares_no_min", "Frost.C10.refreshDkgShares_rejects_threshold_change",
             "Frost.C10.refresh_preserves_sharing", "Frost.C10.refreshed_can_sign", "Frost.C10.mixed_fails_iff",
-            "Frost.SignSession.aggregate_ok_iff_interp", "Frost.C10.refreshDkgShares_ok_consistent", "Frost.C10.refreshDkgShares_honest"]
+            "Frost.SignSession.aggregate_ok_iff_interp", "Frost.C10.refreshDkgShares_ok_consistent", "Frost.C10.refreshDkgShares_honest", "Frost.C10.distributed_refresh_can_sign"]
 RULE = ("one case = one refresh (suite, n, t, remaining set R with |R|>=t, procedure dealer|dkg, repetition index) with all consistency checks and signing attempts with new-only and mixed share sets, or one rejection input; "
         "non-trivial = the refresh ran to the end at every remaining participant (valid) or the targeted guard decided (fault); distinct = hash of (suite, key material, R, procedure)")
 ASSUMPTIONS = ["a signer set mixing old and new shares yields a valid aggregate only on the coincidence c*sum_{i in new} lambda_i r(i) = 0 (exact iff in Lean); on toy16 it can occur, there the expectation is the model's outcome"]
